@@ -512,3 +512,231 @@ Proof.
   rewrite app_length, Lcs. replace (length data + 6 - 6)%nat with (length data) by lia.
   now rewrite firstn_len.
 Qed.
+
+(* the two calls the library makes, composed: for every byte string *)
+Theorem b32_roundtrip hrp bs s : bytes_ok bs -> b32_encode hrp bs = Some s ->
+  exists c, check_hrp hrp = Ok c /\ b32_decode s = Some (hrp_lower c hrp, bs).
+Proof.
+  intros Hok H. unfold b32_encode in H.
+  destruct (encode hrp (to_base32 bs)) as [s'| | |] eqn:E; try discriminate. injection H as <-.
+  destruct (decode_encode hrp (to_base32 bs) s' (to_base32_lt32 bs Hok) E) as (c & Hc & Hd).
+  exists c. split; [exact Hc|]. unfold b32_decode. rewrite Hd, (base32_roundtrip bs Hok). reflexivity.
+Qed.
+
+(* encode fails only on the HRP: any valid HRP, any data, any length *)
+Theorem b32_encode_total hrp bs c : check_hrp hrp = Ok c -> exists s, b32_encode hrp bs = Some s.
+Proof. intros H. unfold b32_encode. rewrite (encode_shape hrp _ c H). eauto. Qed.
+
+(* ================= 4. rejections ================= *)
+Theorem decode_rejects_short s : (length s < 8)%nat -> decode s = Err.
+Proof. intros H. unfold decode. apply Nat.ltb_lt in H. now rewrite H. Qed.
+
+Theorem decode_rejects_no_separator s : Forall (fun x => x <> 49) s -> decode s = Err.
+Proof.
+  intros H. unfold decode. destruct (length s <? 8)%nat; [reflexivity|].
+  unfold rfind. now rewrite rfind_go_notin.
+Qed.
+
+Lemma check_hrp_go_cases hrp : forall hl hu, (exists c, check_hrp_go hrp hl hu = Ok c) \/ check_hrp_go hrp hl hu = Err.
+Proof.
+  induction hrp as [|b t IH]; intros hl hu; cbn [check_hrp_go]; [left; eexists; reflexivity|].
+  destruct ((b <? 33) || (126 <? b)); [now right|].
+  match goal with |- context [if ?c then Err else _] => destruct c end; [now right|apply IH].
+Qed.
+Lemma check_hrp_cases hrp : (exists c, check_hrp hrp = Ok c) \/ check_hrp hrp = Err.
+Proof. unfold check_hrp. destruct (_ || _); [now right|apply check_hrp_go_cases]. Qed.
+
+Lemma decode_char_cases case c : (exists p, decode_char case c = Ok p) \/ decode_char case c = Err.
+Proof.
+  unfold decode_char. destruct (128 <=? c); [now right|].
+  destruct (is_lower c); [destruct case|destruct (is_upper c); [destruct case|]];
+    try (now right);
+    destruct ((31 <? nth (N.to_nat c) charset_rev (-1))%Z || (nth (N.to_nat c) charset_rev (-1) <? 0)%Z);
+    (now right) || (left; eexists; reflexivity).
+Qed.
+
+Lemma decode_chars_bad c cs : In c cs -> (forall case, decode_char case c = Err) ->
+  forall case, decode_chars case cs = Err.
+Proof.
+  intros Hin Hbad. induction cs as [|x t IH]; [destruct Hin|]. intros case. cbn [decode_chars].
+  destruct Hin as [->|Hin]; [now rewrite Hbad|].
+  destruct (decode_char_cases case x) as [[[case' v] E]|E]; rewrite E; cbn [bind]; [|reflexivity].
+  now rewrite (IH Hin case').
+Qed.
+
+(* a data character outside the charset (or outside ASCII) makes decode fail *)
+Theorem decode_rejects_bad_char s sep c : rfind 49 s = Some sep -> In c (skipn (S sep) s) ->
+  (forall case, decode_char case c = Err) -> decode s = Err.
+Proof.
+  intros Hr Hin Hbad. unfold decode. destruct (length s <? 8)%nat; [reflexivity|]. rewrite Hr.
+  destruct (length (skipn (S sep) s) <? 6)%nat; [reflexivity|].
+  destruct (check_hrp_cases (firstn sep s)) as [[case E]|E]; rewrite E; cbn [bind]; [|reflexivity].
+  now rewrite (decode_chars_bad c _ Hin Hbad case).
+Qed.
+
+Example bad_chars : forall case, decode_char case 98 = Err /\ decode_char case 49 = Err /\ decode_char case 200 = Err.
+Proof. intros case. destruct case; repeat split; vm_compute; reflexivity. Qed.   (* 'b', '1', a non-ASCII byte *)
+
+Lemma lower_upper_excl c : is_lower c = true -> is_upper c = true -> False.
+Proof. unfold is_lower, is_upper. lia. Qed.
+
+Lemma decode_chars_lower_then_upper cs up : In up cs -> is_upper up = true -> decode_chars CLower cs = Err.
+Proof.
+  intros Hin Hup. induction cs as [|x t IH]; [destruct Hin|]. cbn [decode_chars].
+  destruct Hin as [->|Hin].
+  - unfold decode_char. destruct (128 <=? up); [reflexivity|].
+    destruct (is_lower up) eqn:L; [exfalso; eapply lower_upper_excl; eassumption|]. now rewrite Hup.
+  - unfold decode_char. destruct (128 <=? x); [reflexivity|].
+    destruct (is_lower x).
+    + destruct ((31 <? nth (N.to_nat x) charset_rev (-1))%Z || (nth (N.to_nat x) charset_rev (-1) <? 0)%Z); cbn [bind]; [reflexivity|].
+      now rewrite (IH Hin).
+    + destruct (is_upper x); [reflexivity|].
+      destruct ((31 <? nth (N.to_nat x) charset_rev (-1))%Z || (nth (N.to_nat x) charset_rev (-1) <? 0)%Z); cbn [bind]; [reflexivity|].
+      now rewrite (IH Hin).
+Qed.
+
+Lemma decode_chars_upper_then_lower cs lo : In lo cs -> is_lower lo = true -> decode_chars CUpper cs = Err.
+Proof.
+  intros Hin Hlo. induction cs as [|x t IH]; [destruct Hin|]. cbn [decode_chars].
+  destruct Hin as [->|Hin].
+  - unfold decode_char. destruct (128 <=? lo); [reflexivity|]. now rewrite Hlo.
+  - unfold decode_char. destruct (128 <=? x); [reflexivity|].
+    destruct (is_lower x); [reflexivity|].
+    destruct (is_upper x);
+      (destruct ((31 <? nth (N.to_nat x) charset_rev (-1))%Z || (nth (N.to_nat x) charset_rev (-1) <? 0)%Z); cbn [bind]; [reflexivity|];
+       now rewrite (IH Hin)).
+Qed.
+
+(* mixed case in the data part is refused whatever the case of the HRP *)
+Theorem decode_chars_mixed_case cs lo up : In lo cs -> In up cs -> is_lower lo = true -> is_upper up = true ->
+  forall case, decode_chars case cs = Err.
+Proof.
+  intros Hlo Hup Ll Uu. induction cs as [|x t IH]; [destruct Hlo|]. intros case.
+  destruct case.
+  - apply (decode_chars_upper_then_lower _ lo); assumption.
+  - apply (decode_chars_lower_then_upper _ up); assumption.
+  - cbn [decode_chars]. unfold decode_char. destruct (128 <=? x); [reflexivity|].
+    destruct (is_lower x) eqn:Lx.
+    + destruct ((31 <? nth (N.to_nat x) charset_rev (-1))%Z || (nth (N.to_nat x) charset_rev (-1) <? 0)%Z); cbn [bind]; [reflexivity|].
+      destruct Hup as [->|Hup]; [exfalso; eapply lower_upper_excl; eassumption|].
+      now rewrite (decode_chars_lower_then_upper t up Hup Uu).
+    + destruct (is_upper x) eqn:Ux.
+      * destruct ((31 <? nth (N.to_nat x) charset_rev (-1))%Z || (nth (N.to_nat x) charset_rev (-1) <? 0)%Z); cbn [bind]; [reflexivity|].
+        destruct Hlo as [->|Hlo]; [congruence|].
+        now rewrite (decode_chars_upper_then_lower t lo Hlo Ll).
+      * destruct ((31 <? nth (N.to_nat x) charset_rev (-1))%Z || (nth (N.to_nat x) charset_rev (-1) <? 0)%Z); cbn [bind]; [reflexivity|].
+        destruct Hlo as [->|Hlo]; [congruence|]. destruct Hup as [->|Hup]; [congruence|].
+        now rewrite (IH Hlo Hup CNone).
+Qed.
+
+Theorem decode_rejects_mixed_case s sep lo up : rfind 49 s = Some sep ->
+  In lo (skipn (S sep) s) -> In up (skipn (S sep) s) -> is_lower lo = true -> is_upper up = true ->
+  decode s = Err.
+Proof.
+  intros Hr Hlo Hup Ll Uu. unfold decode. destruct (length s <? 8)%nat; [reflexivity|]. rewrite Hr.
+  destruct (length (skipn (S sep) s) <? 6)%nat; [reflexivity|].
+  destruct (check_hrp_cases (firstn sep s)) as [[case E]|E]; rewrite E; cbn [bind]; [|reflexivity].
+  now rewrite (decode_chars_mixed_case _ lo up Hlo Hup Ll Uu case).
+Qed.
+
+(* an upper-case HRP with a lower-case data character (or the converse) is refused *)
+Theorem decode_rejects_hrp_data_case s sep x : rfind 49 s = Some sep -> In x (skipn (S sep) s) ->
+  (check_hrp (firstn sep s) = Ok CUpper /\ is_lower x = true) \/
+  (check_hrp (firstn sep s) = Ok CLower /\ is_upper x = true) -> decode s = Err.
+Proof.
+  intros Hr Hin H. unfold decode. destruct (length s <? 8)%nat; [reflexivity|]. rewrite Hr.
+  destruct (length (skipn (S sep) s) <? 6)%nat; [reflexivity|].
+  destruct H as [[-> Hx]|[-> Hx]]; cbn [bind].
+  - now rewrite (decode_chars_upper_then_lower _ x Hin Hx).
+  - now rewrite (decode_chars_lower_then_upper _ x Hin Hx).
+Qed.
+
+(* ================= 5. error detection: one wrong symbol is always detected ================= *)
+Definition mixf (b : N) : N :=
+  N.lxor (N.lxor (N.lxor (N.lxor (sel b 0 gen0) (sel b 1 gen1)) (sel b 2 gen2)) (sel b 3 gen3)) (sel b 4 gen4).
+
+Lemma step_split c v :
+  polymod_step c v = N.lxor (N.lxor (N.shiftl (N.land c 33554431) 5) v) (mixf (N.shiftr c 25)).
+Proof. unfold polymod_step, mixf. apply N.bits_inj. intros n. rewrite !N.lxor_spec. btauto. Qed.
+
+Lemma mixf_low_sweep :
+  forallb (fun i => (N.of_nat i =? 0) || negb (mixf (N.of_nat i) mod 32 =? 0)) (seq 0 32) = true.
+Proof. vm_compute. reflexivity. Qed.
+Lemma mixf_low b : b < 32 -> mixf b mod 32 = 0 -> b = 0.
+Proof.
+  intros Hb H. pose proof mixf_low_sweep as S. rewrite forallb_forall in S.
+  specialize (S (N.to_nat b)). rewrite N2Nat.id in S.
+  assert (I : In (N.to_nat b) (seq 0 32)) by (apply in_seq; lia). specialize (S I). lia.
+Qed.
+
+(* multiplying a non-zero state by x never gives zero: the step with symbol 0 is injective *)
+Lemma step0_nonzero d : d < 2 ^ 30 -> polymod_step d 0 = 0 -> d = 0.
+Proof.
+  intros Hd H. rewrite step_split, N.lxor_0_r in H. apply N.lxor_eq in H.
+  rewrite N.shiftl_mul_pow2, N.shiftr_div_pow2 in H. change 33554431 with (N.ones 25) in H.
+  rewrite N.land_ones in H. change (2 ^ 5) with 32 in H. change (2 ^ 25) with 33554432 in *.
+  change (2 ^ 30) with 1073741824 in Hd.
+  assert (Hb : d / 33554432 < 32) by (apply N.div_lt_upper_bound; lia).
+  assert (Hz : d / 33554432 = 0).
+  { apply mixf_low; [exact Hb|]. rewrite <- H. apply N.mod_mul. lia. }
+  rewrite Hz in H. change (mixf 0) with 0 in H. lia.
+Qed.
+
+Lemma polymod_zeros_nonzero k : forall d, d < 2 ^ 30 -> d <> 0 -> polymod_from d (repeat 0 k) <> 0.
+Proof.
+  induction k as [|k IH]; intros d Hd Hz; [exact Hz|]. unfold polymod_from in *. cbn [repeat fold_left].
+  apply IH; [apply step_bound; lia|]. intros E. apply Hz. now apply step0_nonzero.
+Qed.
+
+Lemma combine_same_fst (z : list N) : map fst (combine z z) = z.
+Proof. induction z as [|x t IH]; [reflexivity|]. cbn. now rewrite IH. Qed.
+Lemma combine_same_snd (z : list N) : map snd (combine z z) = z.
+Proof. induction z as [|x t IH]; [reflexivity|]. cbn. now rewrite IH. Qed.
+Lemma combine_same_xor (z : list N) : map (fun p => N.lxor (fst p) (snd p)) (combine z z) = repeat 0 (length z).
+Proof. induction z as [|x t IH]; [reflexivity|]. cbn. now rewrite IH, N.lxor_nilpotent. Qed.
+
+Theorem single_substitution_detected c a e e' z : e < 32 -> e' < 32 -> e <> e' ->
+  polymod_from c (a ++ e :: z) <> polymod_from c (a ++ e' :: z).
+Proof.
+  intros He He' Hne Heq. rewrite !polymod_from_app in Heq.
+  set (S := polymod_from c a) in *.
+  change (polymod_from S (e :: z)) with (polymod_from (polymod_step S e) z) in Heq.
+  change (polymod_from S (e' :: z)) with (polymod_from (polymod_step S e') z) in Heq.
+  pose proof (polymod_from_linear (combine z z) (polymod_step S e) (polymod_step S e')) as L.
+  rewrite combine_same_fst, combine_same_snd, combine_same_xor, Heq, N.lxor_nilpotent in L.
+  rewrite <- step_linear, N.lxor_nilpotent in L.
+  assert (Hx : N.lxor e e' < 32) by (change 32 with (2 ^ 5); apply lxor_lt_pow2; assumption).
+  rewrite step_small in L by lia. change (0 * 32 + N.lxor e e') with (N.lxor e e') in L.
+  revert L. apply polymod_zeros_nonzero.
+  - eapply N.lt_trans; [exact Hx|vm_compute; reflexivity].
+  - intros E. apply Hne. now apply N.lxor_eq.
+Qed.
+
+(* a valid string with ONE data or checksum symbol replaced by another one never verifies *)
+Theorem verify_rejects_symbol_substitution hrp a e e' z : e < 32 -> e' < 32 -> e <> e' ->
+  verify_checksum hrp (a ++ e :: z) = true -> verify_checksum hrp (a ++ e' :: z) = false.
+Proof.
+  unfold verify_checksum, polymod. intros He He' Hne H.
+  destruct (polymod_from 1 (hrp_expand hrp ++ a ++ e' :: z) =? 1) eqn:E; [|reflexivity]. exfalso.
+  rewrite !app_assoc in H, E.
+  apply (single_substitution_detected 1 (hrp_expand hrp ++ a) e e' z He He' Hne). lia.
+Qed.
+
+(* a wrong human-readable part: one character replaced by another with the same top three bits
+   (e.g. any lower-case letter by another lower-case letter) never verifies *)
+Theorem verify_rejects_hrp_substitution h1 x x' h2 data : x / 32 = x' / 32 -> x mod 32 <> x' mod 32 ->
+  verify_checksum (h1 ++ x :: h2) data = true -> verify_checksum (h1 ++ x' :: h2) data = false.
+Proof.
+  unfold verify_checksum, polymod, hrp_expand. intros Hhi Hlo H.
+  match goal with |- (?t =? 1) = false => destruct (t =? 1) eqn:E end; [|reflexivity]. exfalso.
+  rewrite !map_app in H, E. cbn [map] in H, E. rewrite Hhi in H.
+  rewrite <- !app_assoc in H, E. cbn [app] in H, E.
+  set (pre := map (fun b => b / 32) h1 ++ x' / 32 :: map (fun b => b / 32) h2 ++ 0 :: map (fun b => b mod 32) h1) in *.
+  assert (R : forall y, map (fun b => b / 32) h1 ++ x' / 32 :: map (fun b => b / 32) h2 ++
+                0 :: map (fun b => b mod 32) h1 ++ y mod 32 :: map (fun b => b mod 32) h2 ++ data
+              = pre ++ y mod 32 :: (map (fun b => b mod 32) h2 ++ data)).
+  { intros y. unfold pre. rewrite <- !app_assoc. cbn [app]. rewrite <- !app_assoc. reflexivity. }
+  rewrite (R x) in H. rewrite (R x') in E.
+  apply (single_substitution_detected 1 pre (x mod 32) (x' mod 32) (map (fun b => b mod 32) h2 ++ data));
+    try (apply N.mod_lt; lia); [exact Hlo|lia].
+Qed.
